@@ -76,6 +76,7 @@ func registerAll() {
 	reg("B1", "index-guard exactness: every IndexOutOfBoundsError rejection is reachable exactly under the orderings of (index, bound) that are out of range for the operation (>= for access, > for insertion), and no non-error exit is reachable past the guard under those orderings", ruleB1)
 	reg("L15", "dedup-key completeness: the key under which the slab encoder shares an extra-data entry between inlined containers is a function of the encoded type information and of every field-name list handed in (data dependence through package callees, every non-empty-list return), and every field name enters it together with its length (injective encoding)", ruleL15)
 	reg("L16", "established sizes carry the encoded prefix: every literal, absolute assignment and computed size function starts from the prefix constant of the object's kind and state (data slabs: root / non-root / inlined per getPrefixSize; one constant for every other kind; list literals add their per-entry constant)", ruleL16)
+	reg("L23", "first-digest summary follows the element list: after an element-list operation in a map data slab, every slab whose list may have a different first element (or may have been empty: Set, Remove, PopIterate, Merge receiver; LendToRight right; BorrowFromRight both) writes header.firstKey on every success path", ruleL23)
 	reg("K3", "a stored key is materialised once: no key materialisation (Value.Storable with the key limit, directly or through an element constructor) is dominated by the true edge of a ValueComparator result (on that branch the stored key stays; a second materialisation orphans the first key slab)", ruleK3)
 	reg("K2", "entry counts: element.Count of a collision group is its own element list's Count, of a single element 1; elements.Count is the length of the receiver's element slice (the collision limit counts entries through these)", ruleK2)
 	reg("X7", "decoded objects own their storage: no slice, map or pointer reachable by loads alone from the slab's shared inlined extra data is stored into a freshly decoded slab, element list or extra data", ruleX7)
@@ -110,15 +111,15 @@ func registerAll() {
 	}
 	propTable["C02"] = &PropSpec{
 		ID:          "C02",
-		Rules:       []string{"L10", "L7", "L9", "R6", "K1", "K2", "L6", "R1", "R7", "N2", "N4", "L16", "X7", "D4"},
-		Explanation: "structural necessary conditions of dictionary behaviour: the element count changes exactly on (Set succeeded, no existing value) and on successful Remove; digests, elements and cached sizes are co-updated on every success path; the split / merge decision and header refresh follow every child mutation; absent keys and the collision limit are reported before any effect; keys and values are materialised with the key limit and a value limit derived from the same element's key; collision groups and element lists report their entry counts; every slab mutated or created is stored before the operation returns; a nested container's parent-updater callback writes into the map only after confirming, by value id, that the slot still holds that container. Cached sizes start from the encoded prefix of the object's kind and state wherever they are established or re-based (a wrong prefix wraps around on the next re-basing and makes an in-range request fail in splitRoot). Decoded element lists own their digest slices. An element overwritten with the very container it already holds is recognised before the overwritten storable is uninlined (otherwise the slab just stored as the new element is un-inlined under the parent).",
+		Rules:       []string{"L10", "L7", "L9", "R6", "K1", "K2", "L6", "R1", "R7", "N2", "N4", "L16", "X7", "D4", "L23", "K3"},
+		Explanation: "structural necessary conditions of dictionary behaviour: the element count changes exactly on (Set succeeded, no existing value) and on successful Remove; digests, elements and cached sizes are co-updated on every success path; the split / merge decision and header refresh follow every child mutation; absent keys and the collision limit are reported before any effect; keys and values are materialised with the key limit and a value limit derived from the same element's key; collision groups and element lists report their entry counts; every slab mutated or created is stored before the operation returns; a nested container's parent-updater callback writes into the map only after confirming, by value id, that the slot still holds that container. Cached sizes start from the encoded prefix of the object's kind and state wherever they are established or re-based (a wrong prefix wraps around on the next re-basing and makes an in-range request fail in splitRoot). Decoded element lists own their digest slices. The first digest a data slab reports to its parent is refreshed after every element-list operation that can change it (an emptied slab that borrows from its sibling would otherwise keep digest 0 and make its keys unreachable); a key is materialised only where no stored key was found equal to it. An element overwritten with the very container it already holds is recognised before the overwritten storable is uninlined (otherwise the slab just stored as the new element is un-inlined under the parent).",
 		NotDecided:  "dictionary equivalence, digest routing (binary search over sorted digests), collision-group semantics: value-dependent.",
 		Technique:   "control-dependence and co-update path rules, reject-before-effect typestate",
 	}
 	propTable["C05"] = &PropSpec{
 		ID:          "C05",
-		Rules:       []string{"L5", "L6", "L9", "L13", "L14", "L17", "L7", "L16", "X7"},
-		Explanation: "for EVERY slab size t in [minSlabSize, maxSlabSize] (affine-interval abstract interpretation of setThreshold, not a sample): minThreshold is t/2, maxThreshold is 1.5t and fits the 16-bit size fields, two maximal array elements plus the slab prefix fit in t, two maximal map elements plus digests and prefixes fit in t, a maximal key plus an equal value fit the element limit, and no unsigned subtraction underflows; every element is materialised with the limit of its container kind; every mutation path runs the full / underflow decision and refreshes the index data it summarises (sizes, counts, cumulative counts, header copies). The batch builders build the next tree level only from at least two slabs and merge / rebalance the underfull last slab of a level on the correct decision edges. Cached sizes (which the parents' header tables copy) start from the encoded prefix of the object's kind and state wherever they are established or re-based; decoded element lists do not share their digest slices with other containers (an in-place edit of one would unsort another).",
+		Rules:       []string{"L5", "L6", "L9", "L13", "L14", "L17", "L7", "L16", "X7", "L23"},
+		Explanation: "for EVERY slab size t in [minSlabSize, maxSlabSize] (affine-interval abstract interpretation of setThreshold, not a sample): minThreshold is t/2, maxThreshold is 1.5t and fits the 16-bit size fields, two maximal array elements plus the slab prefix fit in t, two maximal map elements plus digests and prefixes fit in t, a maximal key plus an equal value fit the element limit, and no unsigned subtraction underflows; every element is materialised with the limit of its container kind; every mutation path runs the full / underflow decision and refreshes the index data it summarises (sizes, counts, cumulative counts, header copies). The batch builders build the next tree level only from at least two slabs and merge / rebalance the underfull last slab of a level on the correct decision edges. Cached sizes (which the parents' header tables copy) start from the encoded prefix of the object's kind and state wherever they are established or re-based; decoded element lists do not share their digest slices with other containers (an in-place edit of one would unsort another). After every element-list operation in a map data slab (and every lend / borrow between index slabs) the slab whose first element may have changed, or which may have been empty, refreshes the first digest its parent routes by.",
 		NotDecided:  "that split, lend/borrow and merge choose points that keep both sides inside the band (depends on element sizes); sortedness/uniqueness of digests and sibling links (value-level).",
 		Technique:   "affine-interval abstract interpretation (exhaustive over the symbolic slab size), value-flow checks on Storable() limits, must-pass-through path rules",
 	}
